@@ -1090,7 +1090,14 @@ func smReplayRange(c *smCase) Verdict {
 			return vd
 		}
 	}
-	for _, sc := range smScales {
+	scales := smScales
+	if cf, lf, hf := c.C.f(), smEnd(c.LoInf, c.Lo), smEnd(c.HiInf, c.Hi); cf == math.Trunc(cf) && math.Abs(cf) < 1<<20 &&
+		(math.IsInf(lf, 0) || lf == math.Trunc(lf) && math.Abs(lf) < 1<<20) && (math.IsInf(hf, 0) || hf == math.Trunc(hf) && math.Abs(hf) < 1<<20) {
+		// "any magnitude": whole numbers scale exactly by powers of two, down among the subnormals
+		// (where the reciprocal of the centre is no longer finite) and up near the top of the range
+		scales = append(append([]float64(nil), smScales...), math.Ldexp(1, -1040), math.Ldexp(1, -1060), math.Ldexp(1, -1022), math.Ldexp(1, 900), math.Ldexp(1, 1000))
+	}
+	for _, sc := range scales {
 		s := benchmath.Summary{Center: c.C.f() * sc, Lo: smEnd(c.LoInf, c.Lo) * sc, Hi: smEnd(c.HiInf, c.Hi) * sc, Confidence: 0.95}
 		got := s.PctRangeString()
 		want := smText(c.Want)
